@@ -1544,6 +1544,9 @@ func NewExtents3dFromStrings(offsetStr, sizeStr, sep string) (*Extents3d, error)
 	if err != nil {
 		return nil, err
 	}
+	if size[0] < 0 || size[1] < 0 || size[2] < 0 {
+		return nil, fmt.Errorf("size %s must not be negative in any dimension", size)
+	}
 	ext := Extents3d{
 		MinPoint: offset,
 		MaxPoint: Point3d{offset[0] + size[0] - 1, offset[1] + size[1] - 1, offset[2] + size[2] - 1},
